@@ -67,14 +67,16 @@ func writeGen(dir string, g int, clusterConfAll []byte, vip []byte) error {
 		return err
 	}
 	clusterConf, _ := json.Marshal(map[string]interface{}{"Version": fmt.Sprintf("g%d", g),
-		"Config": map[string]json.RawMessage{goodCluster(g): cc.Config[goodCluster(g)], decoyCluster(g): cc.Config[decoyCluster(g)]}})
+		"Config": map[string]json.RawMessage{goodCluster(g): cc.Config[goodCluster(g)], decoyCluster(g): cc.Config[decoyCluster(g)],
+			"ex": cc.Config["ex"]}})
 	ver := fmt.Sprintf("g%d", g)
 	host := map[string]interface{}{"Version": ver, "DefaultProduct": nil,
-		"Hosts":    map[string][]string{"t": {"probe.example"}, "u": {"other.example"}},
-		"HostTags": map[string][]string{p: {"t"}, q: {"u"}}}
+		"Hosts":    map[string][]string{"t": {"probe.example"}, "u": {"other.example"}, "x": {"ex.example"}},
+		"HostTags": map[string][]string{p: {"t"}, q: {"u"}, "px": {"x"}}}
 	route := map[string]interface{}{"Version": ver, "ProductRule": map[string]interface{}{
-		p: []map[string]string{{"Cond": "default_t()", "ClusterName": goodCluster(g)}},
-		q: []map[string]string{{"Cond": "default_t()", "ClusterName": decoyCluster(g)}}}}
+		p:    []map[string]string{{"Cond": "default_t()", "ClusterName": goodCluster(g)}},
+		q:    []map[string]string{{"Cond": "default_t()", "ClusterName": decoyCluster(g)}},
+		"px": []map[string]string{{"Cond": "default_t()", "ClusterName": "ex"}}}}
 	hb, _ := json.Marshal(host)
 	rb, _ := json.Marshal(route)
 	for name, b := range map[string][]byte{"host_rule.data": hb, "route_rule.data": rb, "cluster_conf.data": clusterConf, "vip_rule.data": vip} {
@@ -111,7 +113,8 @@ func main() {
 	b0, b1 := mk("c0"), mk("c1")
 	s, err := e2e.Start(e2e.Options{
 		Clusters: []e2e.Cluster{{Name: "ca", Backends: []string{b0.Addr}}, {Name: "cb", Backends: []string{b0.Addr}},
-			{Name: "da", Backends: []string{b1.Addr}}, {Name: "db", Backends: []string{b1.Addr}}},
+			{Name: "da", Backends: []string{b1.Addr}}, {Name: "db", Backends: []string{b1.Addr}},
+			{Name: "ex", Backends: []string{b0.Addr}}},
 		Modules: []string{"mod_header", "mod_block", "mod_rewrite"},
 		TLS:     true,
 	})
@@ -126,6 +129,9 @@ func main() {
 		if c.Res != nil {
 			c.Res.Header.Set("X-V-Product", c.Req.Route.Product)
 			c.Res.Header.Set("X-V-Cluster", c.Req.Route.ClusterName)
+			if c.Req.ErrCode != nil {
+				c.Res.Header.Set("X-V-Err", c.Req.ErrCode.Error())
+			}
 		}
 		return bfe_module.BfeHandlerGoOn, nil
 	})
@@ -135,6 +141,34 @@ func main() {
 		return
 	}
 	vip, _ := ioutil.ReadFile(filepath.Join(s.ConfRoot, "server_data_conf/vip_rule.data"))
+	// balancer-table generations: cluster "ex" comes and goes (gslb.data + cluster_table.data)
+	readJSON := func(rel string) map[string]interface{} {
+		var m map[string]interface{}
+		b, _ := ioutil.ReadFile(filepath.Join(s.ConfRoot, rel))
+		json.Unmarshal(b, &m)
+		return m
+	}
+	gslbAll, tableAll := readJSON("cluster_conf/gslb.data"), readJSON("cluster_conf/cluster_table.data")
+	writeBal := func(dir string, withEx bool, n int) error {
+		g := map[string]interface{}{}
+		for k, v := range gslbAll["Clusters"].(map[string]interface{}) {
+			if k != "ex" || withEx {
+				g[k] = v
+			}
+		}
+		t := map[string]interface{}{}
+		for k, v := range tableAll["Config"].(map[string]interface{}) {
+			if k != "ex" || withEx {
+				t[k] = v
+			}
+		}
+		gb, _ := json.Marshal(map[string]interface{}{"Clusters": g, "Hostname": "", "Ts": strconv.Itoa(n)})
+		tb, _ := json.Marshal(map[string]interface{}{"Config": t, "Version": strconv.Itoa(n)})
+		if err := ioutil.WriteFile(filepath.Join(dir, "gslb.data"), gb, 0644); err != nil {
+			return err
+		}
+		return ioutil.WriteFile(filepath.Join(dir, "cluster_table.data"), tb, 0644)
+	}
 	gen := int64(0)
 	genDir := func(g int) string {
 		d := filepath.Join(s.ConfRoot, "gen", strconv.Itoa(g))
@@ -182,6 +216,23 @@ func main() {
 						continue
 					}
 					log(map[string]interface{}{"ev": "req_start", "id": id})
+					if i%3 == 2 {
+						// probe of the cluster that balancer-table reloads add and remove: either the old table
+						// (no balancer: BK_NO_BALANCE) or the new one (complete: 200), nothing in between
+						cli.Send("GET /r HTTP/1.1\r\nHost: ex.example\r\nConnection: close\r\n\r\n")
+						r, err := cli.ReadResponse("GET", 20*time.Second)
+						status, errc := -1, ""
+						if err == nil && r != nil {
+							status, errc = r.Status, r.Header.Get("X-V-Err")
+						}
+						okEx := (status == 200 && string(r.Body) == "c0") || (status == 500 && (errc == "BK_NO_BALANCE" || errc == "BK_NO_CLUSTER"))
+						if !okEx {
+							atomic.AddInt32(&failures, 1)
+						}
+						log(map[string]interface{}{"ev": "ex_end", "id": id, "status": status, "err": errc, "ok": okEx})
+						cli.Close()
+						continue
+					}
 					cli.Send("GET /r HTTP/1.1\r\nHost: probe.example\r\nConnection: close\r\n\r\n")
 					r, err := cli.ReadResponse("GET", 20*time.Second)
 					status, product, cluster := -1, "", ""
@@ -226,8 +277,10 @@ func main() {
 		go func() {
 			defer wg.Done()
 			for i := 0; i < c.Reloads; i++ {
+				bd := genDir(1000000 + i)
+				writeBal(bd, i%2 == 0, i)
 				if p := vh.Guard(func() {
-					s.ReloadGslb()
+					s.Srv.GslbDataConfReload(url.Values{"path": {bd}})
 					s.Srv.TLSConfReload(url.Values{})
 					s.Reload("mod_header", nil)
 					s.Reload("mod_block.global_ip_table", nil)
@@ -235,6 +288,7 @@ func main() {
 				}); p != "" {
 					atomic.StoreInt32(&panicked, 1)
 				}
+				os.RemoveAll(bd)
 				time.Sleep(300 * time.Microsecond)
 			}
 		}()
